@@ -106,7 +106,7 @@ type lockstepOut struct {
 func lockstep(env *vh.Env, rep *vh.Report, fams []*family) {
 	reps := 3
 	if env.Thorough {
-		reps = 80
+		reps = 40
 	}
 	var mu sync.Mutex
 	var wg sync.WaitGroup
